@@ -452,7 +452,10 @@ def run_to_completion(state: State, external_event: Union[dict, Event]) -> State
 
         advancing_heads = _resolve_action_conflicts(state, actionable_heads)
 
-        heads_are_advancing = len(advancing_heads) > 0
+        # Flows that failed during the action conflict resolution create new internal events
+        heads_are_advancing = (
+            len(advancing_heads) > 0 or len(state.internal_events) > 0
+        )
         actionable_heads = _advance_head_front(state, advancing_heads)
         heads_are_merging = True
 
@@ -790,6 +793,34 @@ def _resolve_action_conflicts(
     state: State, actionable_heads: List[FlowHead]
 ) -> List[FlowHead]:
     """Resolve all conflicting action conflicts from actionable heads."""
+
+    # Fail all flows with an action event that cannot be generated (e.g. invalid
+    # parameter types), otherwise the error would abort the whole event processing
+    # and leave the flow stuck at the action statement forever
+    for head in list(actionable_heads):
+        flow_state = get_flow_state_from_head(state, head)
+        element = get_element_from_head(state, head)
+        try:
+            assert isinstance(element, SpecOp)
+            event = get_event_from_element(state, flow_state, element)
+            create_umim_event(event, event.arguments)
+        except Exception as e:
+            log.warning(
+                "Flow '%s' failed due to Colang runtime exception in action statement: %s",
+                flow_state.flow_id,
+                e,
+                exc_info=True,
+            )
+            colang_error_event = Event(
+                name="ColangError",
+                arguments={
+                    "type": str(type(e).__name__),
+                    "error": str(e),
+                },
+            )
+            _push_internal_event(state, colang_error_event)
+            _abort_flow(state, flow_state, head.matching_scores)
+            actionable_heads.remove(head)
 
     # Check for potential conflicts between actionable heads
     advancing_heads: List[FlowHead] = []
